@@ -198,6 +198,11 @@ def collect(ctx, prop):
         scripts = short + rest[:max(0, nmc - len(short))]
     scen = scripts_to_scenarios(scripts, "mc")
     scen += [rand_scenario(rng, i, prop) for i in range(nrand)]
+    # handlers that answer through Response.Write with a packet built on a copy of the request's header (single-packet sessions)
+    for s in scen:
+        for q in s.get("pkts", []):
+            if q.get("ops") == ["reply"] and q.get("rd") == "ok" and rng.random() < 0.06:
+                q["viawrite"] = True
     # boundary session ids (0, 1, the sign bit, all ones) on a share of the scenarios
     for s in scen:
         if rng.random() < 0.12:
